@@ -946,8 +946,6 @@ theorem iterVisited_valid {sp : Space} (hwf : SpaceWF sp) :
     have h3 := iterVisited_valid hwf t st' (fun c hc => h c (List.mem_cons_of_mem _ hc))
     simp [iterVisited, h1, getConfiguration_ok hwf st', h2, h3]
 
-/-! ### expressions with catalogs -/
-
 theorem getSelection_currentSels : ∀ (sp : Space) (st : St) (c : Controller),
     (sp.map Controller.name).Nodup → c ∈ sp →
     getSelection (currentSels sp st) c.name = some (c.specs.getD (st c.name) [])
@@ -961,6 +959,351 @@ theorem getSelection_currentSels : ∀ (sp : Space) (st : St) (c : Controller),
     · have : d.name ≠ c.name := fun e => hn.1 (e ▸ List.mem_map_of_mem hc)
       simp only [this, if_false]
       exact getSelection_currentSels t st c hn.2 hc
+
+/-! ### the operators are functions of the configuration they are given -/
+
+/-- two outcomes that raise the same error, or succeed with states that agree on the space -/
+def ExAgree (sp : Space) : Except Err St → Except Err St → Prop
+  | .error e, .error e' => e = e'
+  | .ok s, .ok s' => Agree sp s s'
+  | _, _ => False
+
+theorem agree_set {sp : Space} {st st' : St} (h : Agree sp st st') (n : Name) (i : Nat) :
+    Agree sp (st.set n i) (st'.set n i) := by
+  intro c hc
+  simp only [St.set]
+  split
+  · rfl
+  · exact h c hc
+
+theorem modifyNamed_congr {sp : Space} {st st' : St} (h : Agree sp st st') (n : Name) (k : Int) :
+    ExAgree sp (modifyNamed sp st n k) (modifyNamed sp st' n k) := by
+  unfold modifyNamed
+  cases hf : findCtrl sp n with
+  | none => exact rfl
+  | some c =>
+    obtain ⟨hc, hn⟩ := findCtrl_some sp n c hf
+    have e : st n = st' n := by rw [← hn]; exact h c hc
+    dsimp only
+    rw [e]
+    cases modifyController c (st' n) k true with
+    | error er => exact rfl
+    | ok p => exact agree_set h n p.1
+
+theorem modifyMany_congr {sp : Space} (delta : Int) : ∀ (l : List Name) (st st' : St),
+    Agree sp st st' → ExAgree sp (modifyMany sp delta st l) (modifyMany sp delta st' l)
+  | [], _, _, h => h
+  | n :: t, st, st', h => by
+    have h1 := modifyNamed_congr h n delta
+    unfold modifyMany
+    cases ha : modifyNamed sp st n delta with
+    | error e =>
+      cases hb : modifyNamed sp st' n delta with
+      | error e' => rw [ha, hb] at h1; exact h1
+      | ok s' => rw [ha, hb] at h1; exact h1.elim
+    | ok s =>
+      cases hb : modifyNamed sp st' n delta with
+      | error e' => rw [ha, hb] at h1; exact h1.elim
+      | ok s' =>
+        rw [ha, hb] at h1
+        exact modifyMany_congr delta t s s' h1
+
+theorem modifyOp_congr {sp : Space} {st st' : St} (h : Agree sp st st') (op : Op) (k : Int)
+    (ch : List Nat) : ExAgree sp (modifyOp sp st op k ch) (modifyOp sp st' op k ch) := by
+  cases op with
+  | increase n => exact modifyNamed_congr h n k
+  | decrease n => exact modifyNamed_congr h n (-k)
+  | several b => exact modifyMany_congr _ _ st st' h
+  | pair n1 n2 d =>
+    have h1 := modifyNamed_congr h n1 (if d.east then k else -k)
+    cases ha : modifyNamed sp st n1 (if d.east then k else -k) with
+    | error e =>
+      cases hb : modifyNamed sp st' n1 (if d.east then k else -k) with
+      | error e' => rw [ha, hb] at h1; simp only [modifyOp, ha, hb]; exact h1
+      | ok s' => rw [ha, hb] at h1; exact h1.elim
+    | ok s =>
+      cases hb : modifyNamed sp st' n1 (if d.east then k else -k) with
+      | error e' => rw [ha, hb] at h1; exact h1.elim
+      | ok s' =>
+        rw [ha, hb] at h1
+        simp only [modifyOp, ha, hb]
+        exact modifyNamed_congr h1 n2 _
+
+/-- **the result of an operator does not depend on the state the controllers were left in**:
+what is returned (configuration and number), or the error, is the same from any two states -/
+theorem applyOp_state_independent {sp : Space} (hwf : SpaceWF sp) (op : Op) {cfg : Config}
+    (hv : ValidCfg sp cfg) (k : Int) (ch : List Nat) (st st' : St) :
+    (applyOp sp st op cfg k ch).map (fun r => r.2) = (applyOp sp st' op cfg k ch).map (fun r => r.2) := by
+  obtain ⟨sA, a1, a2, a3⟩ := applyOp_char hwf st op hv k ch
+  obtain ⟨sB, b1, b2, b3⟩ := applyOp_char hwf st' op hv k ch
+  have hag : Agree sp sA sB := currentSels_inj sp sA sB hwf.specs_nodup a2 b2 (a1.trans b1.symm)
+  have hm := modifyOp_congr hag op k ch
+  rw [a3, b3]
+  cases ha : modifyOp sp sA op k ch with
+  | error e =>
+    cases hb : modifyOp sp sB op k ch with
+    | error e' => rw [ha, hb] at hm; cases hm; rfl
+    | ok s' => rw [ha, hb] at hm; exact hm.elim
+  | ok s =>
+    cases hb : modifyOp sp sB op k ch with
+    | error e' => rw [ha, hb] at hm; exact hm.elim
+    | ok s' =>
+      rw [ha, hb] at hm
+      show Except.ok (currentSels sp s, retOf sp op k) = Except.ok (currentSels sp s', retOf sp op k)
+      rw [currentSels_congr sp s s' hm]
+
+/-- what a pair move does on a valid configuration, explicitly: from the state `sA` that shows
+the configuration, the first controller moves by ±k, then the second by ±k (wrap-around) -/
+theorem applyOp_pair {sp : Space} (hwf : SpaceWF sp) (st : St) {c1 c2 : Controller}
+    (h1 : c1 ∈ sp) (h2 : c2 ∈ sp) (d : Dir) {cfg : Config} (hv : ValidCfg sp cfg) (k : Int)
+    (ch : List Nat) :
+    ∃ sA, currentSels sp sA = cfg ∧ InRange sp sA ∧
+      ∃ s1 s2, s1 = sA.set c1.name ((((sA c1.name : Nat) : Int) + (if d.east then k else -k)) % (c1.size : Int)).toNat ∧
+        s2 = s1.set c2.name ((((s1 c2.name : Nat) : Int) + (if d.north then k else -k)) % (c2.size : Int)).toNat ∧
+        InRange sp s2 ∧
+        applyOp sp st (.pair c1.name c2.name d) cfg k ch = .ok (s2, currentSels sp s2, k) := by
+  obtain ⟨sA, a1, a2, a3⟩ := applyOp_char hwf st (.pair c1.name c2.name d) hv k ch
+  have hn := names_nodup hwf.sorted
+  have p1 : 0 < c1.size := List.length_pos_iff.mpr (hwf.specs_ne c1 h1)
+  have p2 : 0 < c2.size := List.length_pos_iff.mpr (hwf.specs_ne c2 h2)
+  refine ⟨sA, a1, a2, _, _, rfl, rfl, ?_, ?_⟩
+  · exact inRange_set hn (inRange_set hn a2 h1 (emod_toNat_lt _ _ p1)) h2 (emod_toNat_lt _ _ p2)
+  · rw [a3]
+    simp only [modifyOp, modifyNamed_ok hwf h1, modifyNamed_ok hwf h2, retOf]
+
+/-- a pair move followed by the opposite pair move with the same step gives back the
+configuration (two different controllers; whatever the states in between) -/
+theorem pair_back {sp : Space} (hwf : SpaceWF sp) {c1 c2 : Controller} (h1 : c1 ∈ sp)
+    (h2 : c2 ∈ sp) (hne : c1.name ≠ c2.name) (d : Dir) {cfg : Config} (hv : ValidCfg sp cfg)
+    (k : Int) (st st' : St) (ch ch' : List Nat) :
+    ∃ st₁ cfg₁ st₂, applyOp sp st (.pair c1.name c2.name d) cfg k ch = .ok (st₁, cfg₁, k) ∧
+      ValidCfg sp cfg₁ ∧
+      applyOp sp st' (.pair c1.name c2.name d.opposite) cfg₁ k ch' = .ok (st₂, cfg, k) := by
+  obtain ⟨sA, a1, a2, s1, s2, e1, e2, r2, a3⟩ := applyOp_pair hwf st h1 h2 d hv k ch
+  have hv1 : ValidCfg sp (currentSels sp s2) := currentSels_valid sp s2 r2
+  obtain ⟨sB, b1, b2, t1, t2, f1, f2, _, b3⟩ := applyOp_pair hwf st' h1 h2 d.opposite hv1 k ch'
+  refine ⟨s2, currentSels sp s2, t2, a3, hv1, ?_⟩
+  rw [b3, ← a1]
+  have hag : Agree sp sB s2 := currentSels_inj sp sB s2 hwf.specs_nodup b2 r2 b1
+  have hne' : c2.name ≠ c1.name := fun e => hne e.symm
+  have oe : (if d.opposite.east then k else -k) = -(if d.east then k else -k) := by
+    cases d <;> simp [Dir.opposite, Dir.east]
+  have on : (if d.opposite.north then k else -k) = -(if d.north then k else -k) := by
+    cases d <;> simp [Dir.opposite, Dir.north]
+  -- the indices of the two controllers in the intermediate state
+  have s2c1 : s2 c1.name = ((((sA c1.name : Nat) : Int) + (if d.east then k else -k)) % (c1.size : Int)).toNat := by
+    rw [e2, e1]; simp [St.set, hne]
+  have s1c2 : s1 c2.name = sA c2.name := by rw [e1]; simp [St.set, hne']
+  have s2c2 : s2 c2.name = ((((sA c2.name : Nat) : Int) + (if d.north then k else -k)) % (c2.size : Int)).toNat := by
+    rw [e2, s1c2]; simp [St.set]
+  have t1c1 : t1 c1.name = sA c1.name := by
+    rw [f1]
+    simp only [St.set, if_true]
+    rw [hag c1 h1, s2c1, oe]
+    have := emod_back (sA c1.name) (if d.east then k else -k) c1.size (a2 c1 h1)
+    rw [this]; simp
+  have t1c2 : t1 c2.name = s2 c2.name := by
+    rw [f1]; simp only [St.set, hne', if_false]; exact hag c2 h2
+  have t2c2 : t2 c2.name = sA c2.name := by
+    rw [f2]
+    simp only [St.set, if_true]
+    rw [t1c2, s2c2, on]
+    have := emod_back (sA c2.name) (if d.north then k else -k) c2.size (a2 c2 h2)
+    rw [this]; simp
+  have : currentSels sp t2 = currentSels sp sA := by
+    apply currentSels_congr
+    intro x hx
+    by_cases x2 : x.name = c2.name
+    · rw [x2]; exact t2c2
+    · by_cases x1 : x.name = c1.name
+      · rw [f2]; simp only [St.set, x2, if_false]; rw [x1]; exact t1c1
+      · rw [f2, f1]; simp only [St.set, x2, x1, if_false]
+        have := hag x hx
+        rw [e2, e1] at this
+        simp only [St.set, x2, x1, if_false] at this
+        exact this
+  rw [this]
+
+/-- a controller the operator does not name keeps the alternative it has in the
+configuration passed to the operator -/
+theorem applyOp_others {sp : Space} (hwf : SpaceWF sp) (st : St) (op : Op) {cfg : Config}
+    (hv : ValidCfg sp cfg) (k : Int) (ch : List Nat) (st' : St) (cfg' : Config) (r : Int)
+    (h : applyOp sp st op cfg k ch = .ok (st', cfg', r)) (x : Controller) (hx : x ∈ sp)
+    (hnot : match op with
+      | .increase n => x.name ≠ n
+      | .decrease n => x.name ≠ n
+      | .pair n1 n2 _ => x.name ≠ n1 ∧ x.name ≠ n2
+      | .several _ => x.name ∉ drawn sp (min k (sp.length : Int)) ch) :
+    getSelection cfg' x.name = getSelection cfg x.name := by
+  obtain ⟨sA, a1, _, a3⟩ := applyOp_char hwf st op hv k ch
+  have hn := names_nodup hwf.sorted
+  rw [a3] at h
+  -- modifying a named controller leaves the index of every other name alone
+  have named : ∀ (s s' : St) (n : Name) (j : Int), modifyNamed sp s n j = .ok s' → x.name ≠ n →
+      s' x.name = s x.name := by
+    intro s s' n j hm hxn
+    unfold modifyNamed at hm
+    split at hm
+    · cases hm
+    · split at hm
+      · cases hm
+      · cases hm
+        simp [St.set, hxn]
+  have many : ∀ (delta : Int) (l : List Name) (s s' : St), modifyMany sp delta s l = .ok s' →
+      x.name ∉ l → s' x.name = s x.name := by
+    intro delta l
+    induction l with
+    | nil => intro s s' hm _; cases hm; rfl
+    | cons n t ih =>
+      intro s s' hm hxl
+      simp only [modifyMany] at hm
+      cases h1 : modifyNamed sp s n delta with
+      | error e => rw [h1] at hm; cases hm
+      | ok s1 =>
+        rw [h1] at hm
+        rw [ih s1 s' hm (fun e => hxl (List.mem_cons_of_mem _ e)),
+          named s s1 n _ h1 (fun e => hxl (e ▸ List.mem_cons_self))]
+  have key : ∀ s2, modifyOp sp sA op k ch = .ok s2 → s2 x.name = sA x.name := by
+    intro s2 hm
+    cases op with
+    | increase n => exact named sA s2 n k hm hnot
+    | decrease n => exact named sA s2 n (-k) hm hnot
+    | pair n1 n2 d =>
+      simp only [modifyOp] at hm
+      cases h1 : modifyNamed sp sA n1 (if d.east then k else -k) with
+      | error e => rw [h1] at hm; cases hm
+      | ok s1 =>
+        rw [h1] at hm
+        rw [named s1 s2 n2 _ hm hnot.2, named sA s1 n1 _ h1 hnot.1]
+    | several b =>
+      simp only [modifyOp] at hm
+      exact many _ _ sA s2 hm hnot
+  cases hm : modifyOp sp sA op k ch with
+  | error e => rw [hm] at h; cases h
+  | ok s2 =>
+    rw [hm] at h
+    cases h
+    rw [← a1, getSelection_currentSels sp st' x hn hx, getSelection_currentSels sp sA x hn hx,
+      key st' hm]
+
+/-! ### a population of configurations (operators interleaved with other operations) -/
+
+def PopValid (sp : Space) (pop : List Config) : Prop := ∀ c ∈ pop, ValidCfg sp c
+
+/-- the operators used by the events name controllers of the space -/
+def EvOK (sp : Space) : Event → Prop
+  | .apply o _ _ _ _ => OpNamesIn sp o
+  | _ => True
+
+theorem mem_setMember : ∀ (pop : List Config) (k : Nat) (c x : Config),
+    x ∈ setMember pop k c → x ∈ pop ∨ x = c
+  | [], _, _, _, h => by cases h
+  | _ :: t, 0, c, x, h => by
+    rcases List.mem_cons.mp h with h | h
+    · exact Or.inr h
+    · exact Or.inl (List.mem_cons_of_mem _ h)
+  | a :: t, k + 1, c, x, h => by
+    rcases List.mem_cons.mp h with h | h
+    · exact Or.inl (h ▸ List.mem_cons_self)
+    · rcases mem_setMember t k c x h with h | h
+      · exact Or.inl (List.mem_cons_of_mem _ h)
+      · exact Or.inr h
+
+def Event.isApply : Event → Bool
+  | .apply .. => true
+  | _ => false
+
+/-- one event keeps the members valid; an operator call gives the same members from any
+other state of the controllers, the other operations do not touch the members -/
+theorem stepEvent_spec {sp : Space} (hwf : SpaceWF sp) {st : St} {pop : List Config}
+    (hp : PopValid sp pop) (ev : Event) (hev : EvOK sp ev) {st1 : St} {pop1 : List Config}
+    {oc : Option Config} {oi : Option Int} (h : stepEvent sp st pop ev = .ok (st1, pop1, oc, oi)) :
+    PopValid sp pop1 ∧
+    (ev.isApply = true → ∀ st', ∃ st1', stepEvent sp st' pop ev = .ok (st1', pop1, oc, oi)) ∧
+    (ev.isApply = false → pop1 = pop) := by
+  cases ev with
+  | apply o k ch src dst =>
+    simp only [stepEvent] at h
+    cases hs : pop[src]? with
+    | none => rw [hs] at h; cases h
+    | some cfg =>
+      rw [hs] at h
+      have hv : ValidCfg sp cfg := hp cfg (List.mem_of_getElem? hs)
+      obtain ⟨sa, ca, ha, hva⟩ := applyOp_closed hwf st o hev hv k ch
+      dsimp only at h
+      rw [ha] at h
+      cases h
+      refine ⟨?_, ?_, fun e => (by cases e)⟩
+      · intro x hx
+        rcases mem_setMember pop dst ca x hx with hx | hx
+        · exact hp x hx
+        · rw [hx]; exact hva
+      · intro _ st'
+        obtain ⟨sb, cb, hb, _⟩ := applyOp_closed hwf st' o hev hv k ch
+        have hi := applyOp_state_independent hwf o hv k ch st st'
+        rw [ha, hb] at hi
+        have hcb : ca = cb := by
+          have := Except.ok.inj hi
+          exact (Prod.mk.inj this).1
+        subst hcb
+        refine ⟨sb, ?_⟩
+        simp only [stepEvent, hs, hb]
+  | configure cfg =>
+    simp only [stepEvent] at h
+    cases hs : setConfiguration sp st cfg with
+    | error e => rw [hs] at h; cases h
+    | ok s => rw [hs] at h; cases h; exact ⟨hp, fun e => (by cases e), fun _ => rfl⟩
+  | setCtrl n i =>
+    simp only [stepEvent] at h
+    cases hs : setController sp st n i with
+    | error e => rw [hs] at h; cases h
+    | ok s => rw [hs] at h; cases h; exact ⟨hp, fun e => (by cases e), fun _ => rfl⟩
+  | modifyCtrl n k c =>
+    simp only [stepEvent] at h
+    cases hf : findCtrl sp n with
+    | none => rw [hf] at h; cases h
+    | some ctrl =>
+      rw [hf] at h
+      dsimp only at h
+      cases hs : modifyController ctrl (st n) k c with
+      | error e => rw [hs] at h; cases h
+      | ok r => rw [hs] at h; cases h; exact ⟨hp, fun e => (by cases e), fun _ => rfl⟩
+
+/-- **population histories**: whatever is done to the expression between the operator calls
+(configuring it, selecting alternatives, moving controllers, iterating) and whatever state it
+starts in, the members of the population stay valid and are exactly those obtained by the
+operator calls alone from any other state -/
+theorem runEvents_spec {sp : Space} (hwf : SpaceWF sp) :
+    ∀ (evs : List Event) (st : St) (pop : List Config) (stE : St) (popE : List Config),
+      PopValid sp pop → (∀ ev ∈ evs, EvOK sp ev) → runEvents sp st pop evs = .ok (stE, popE) →
+      PopValid sp popE ∧ ∀ st', ∃ stE', runEvents sp st' pop (onlyApplies evs) = .ok (stE', popE)
+  | [], st, pop, stE, popE, hp, _, h => by
+    cases h
+    exact ⟨hp, fun st' => ⟨st', rfl⟩⟩
+  | ev :: t, st, pop, stE, popE, hp, hev, h => by
+    simp only [runEvents] at h
+    cases hs : stepEvent sp st pop ev with
+    | error e => rw [hs] at h; cases h
+    | ok r =>
+      obtain ⟨st1, pop1, oc, oi⟩ := r
+      rw [hs] at h
+      dsimp only at h
+      obtain ⟨hp1, hA, hN⟩ := stepEvent_spec hwf hp ev (hev ev List.mem_cons_self) hs
+      obtain ⟨hpE, hind⟩ := runEvents_spec hwf t st1 pop1 stE popE hp1
+        (fun x hx => hev x (List.mem_cons_of_mem _ hx)) h
+      refine ⟨hpE, fun st' => ?_⟩
+      cases ev with
+      | apply o k ch src dst =>
+        obtain ⟨st1', h1'⟩ := hA rfl st'
+        obtain ⟨stE', hE'⟩ := hind st1'
+        refine ⟨stE', ?_⟩
+        simp only [onlyApplies, runEvents, h1']
+        exact hE'
+      | configure cfg => rw [hN rfl] at hind; exact hind st'
+      | setCtrl n i => rw [hN rfl] at hind; exact hind st'
+      | modifyCtrl n k c => rw [hN rfl] at hind; exact hind st'
+
+/-! ### expressions with catalogs -/
 
 mutual
   /-- delegation to the member at the controller's index = the member named by the
@@ -1382,6 +1725,41 @@ theorem prepareOperators_names (sp : Space) :
         · cases hd
         · cases hd
           exact ⟨h1, h2⟩
+    · trivial
+  · trivial
+
+/-- the pair operators of `prepare_operators` name two different controllers -/
+def PairDistinct : Op → Prop
+  | .pair a b _ => a ≠ b
+  | _ => True
+
+theorem prepareOperators_pairs (sp : Space) :
+    ∀ x ∈ prepareOperators sp, PairDistinct x.2 := by
+  let P : List (List Char × Op) → Prop := fun d => ∀ x ∈ d, PairDistinct x.2
+  have step : ∀ (d : List (List Char × Op)) k v, P d → PairDistinct v → P (opSet d k v) := by
+    intro d k v hd hv x hx
+    rcases opSet_mem d k v x hx with h | h
+    · exact hd x h
+    · rw [h]; exact hv
+  unfold prepareOperators
+  apply step
+  · apply step
+    · apply foldl_inv P _ _ (fun t : Name × Name × Dir => t.1 ≠ t.2.1)
+      · intro d b hd hb
+        exact step _ _ _ hd hb
+      · apply foldl_inv P _ _ (fun _ : Name => True)
+        · intro d n hd _
+          exact step _ _ _ (step _ _ _ hd trivial) trivial
+        · intro x hx; cases hx
+        · intro n _; trivial
+      · intro t ht
+        simp only [List.mem_flatMap, List.mem_filterMap] at ht
+        obtain ⟨n1, _, n2, _, d, _, hd⟩ := ht
+        split at hd
+        · cases hd
+        · rename_i hne
+          cases hd
+          exact hne
     · trivial
   · trivial
 
